@@ -57,7 +57,7 @@ def excJ : Exc → Json
   | .valueError => "ValueError" | .body _ => "body"
 
 def outcomeJ : Outcome → Json
-  | .ret v => Json.mkObj [("ret", valJ v)]
+  | .ret _ => Json.mkObj [("ret", Json.null)]
   | .raised e => Json.mkObj [("raised", excJ e)]
 
 def fvalJ : FVal → Json
@@ -66,6 +66,11 @@ def fvalJ : FVal → Json
   | .sys t => Json.mkObj [("sys", toJson t)]
 
 def msgJ (m : Msg) : Json := Json.mkObj (m.map fun (k, v) => (k, fvalJ v))
+
+def runJ (w : Run) : Json :=
+  Json.mkObj [("result", outcomeJ w.result), ("msgs", Json.arr (w.msgs.map msgJ).toArray)]
+
+def sortB (b : Bound) : Bound := (b.toArray.qsort (fun a c => a.1 < c.1)).toList
 
 def runCase (j : Json) : Except String Json := do
   let sig : Sig ← (← (j.getObjVal? "sig") >>= (·.getArr?)).toList.mapM parseParam
@@ -81,15 +86,29 @@ def runCase (j : Json) : Except String Json := do
   let bj ← j.getObjVal? "body"
   let raises ← bj.getObjValAs? Bool "raise"
   let ret ← (bj.getObjVal? "ret") >>= parseVal
-  let f : Body := fun _ => if raises then .raised (.body 1) else .ret ret
+  -- the body returns an encoding of its own locals, so that different bindings give different results
+  let f : Body := fun b => if raises then .raised (.body 1) else
+    .ret (.str (reprStr ret ++ "|" ++ (boundJ (.ok (sortB b))).compress))
   let w := wrapper m sig opts f pos kw
+  let d := decorated m sig opts f pos kw
+  let direct := callDirect sig f pos kw
+  let outerJ : Json := match outer sig pos kw with
+    | .error e => errJ e
+    | .ok (p', k') => Json.mkObj [("ok", Json.mkObj [("pos", Json.arr (p'.map valJ).toArray),
+        ("kw", Json.arr (k'.map fun (k, v) => Json.arr #[toJson k, valJ v]).toArray)])]
+  let innerBound : Json := match outer sig pos kw with
+    | .error _ => Json.null
+    | .ok (p', k') => boundJ (bind sig p' k')
   pure <| Json.mkObj [
     ("wf", toJson sig.WF), ("noCollision", toJson sig.noCollision), ("noStructural", toJson sig.noStructural),
-    ("includeOK", toJson (opts.includeOK sig)), ("agrees", toJson (getcallargsAgrees sig pos kw)),
+    ("includeOK", toJson (opts.includeOK sig)), ("gcaAgrees", toJson (getcallargsAgrees sig pos kw)),
+    ("bindingAgrees", toJson (bindingAgrees sig pos kw)), ("posOnlyRespected", toJson (posOnlyRespected sig kw)),
     ("decorate", match decorate sig opts with | .ok _ => "ok" | .error e => excJ e),
     ("bind", boundJ (bind sig pos kw)), ("gca", boundJ (getcallargs sig pos kw)),
-    ("direct", outcomeJ (callDirect sig f pos kw)),
-    ("wrapper", Json.mkObj [("result", outcomeJ w.result), ("msgs", Json.arr (w.msgs.map msgJ).toArray)])]
+    ("outer", outerJ), ("innerBound", innerBound),
+    ("direct", outcomeJ direct),
+    ("wrapper", runJ w), ("wrapperTransparent", toJson (decide (w.result = direct))),
+    ("decorated", runJ d), ("transparent", toJson (decide (d.result = direct)))]
 
 partial def loop (h : IO.FS.Stream) : IO Unit := do
   let line ← h.getLine
